@@ -17,6 +17,9 @@ import (
 	"github.com/google/badwolf/triple/predicate"
 )
 
+// FScale: float64 cells carry value * 2^24 (see lib/bqlu.py).
+const FScale = 1 << 24
+
 type Cell struct {
 	K string `json:"k"`
 	V int    `json:"v"`
@@ -124,7 +127,7 @@ func (u *U) Object(c Cell) (*triple.Object, error) {
 		}
 		return triple.NewLiteralObject(l), nil
 	case "F":
-		l, err := b.Build(literal.Float64, float64(c.V)/4)
+		l, err := b.Build(literal.Float64, float64(c.V)/FScale)
 		if err != nil {
 			return nil, err
 		}
@@ -215,8 +218,8 @@ func (u *U) LitCell(l *literal.Literal) Cell {
 			return Cell{"I", int(v)}
 		}
 	case float64:
-		q := v * 4
-		if l.Type() == literal.Float64 && q == math.Trunc(q) && math.Abs(q) < (1<<30) {
+		q := v * FScale
+		if l.Type() == literal.Float64 && q == math.Trunc(q) && math.Abs(q) < (1<<31)-1 {
 			return Cell{"F", int(q)}
 		}
 	case string:
